@@ -12,6 +12,33 @@ REGEX_API_OK = re.compile(r"^regex::regex::string::(Regex::(captures|split)|Capt
 OPTION_FIELDS = ["nullable", "trim", "convert", "microseconds", "default_value"]
 
 
+def bool_pattern_rule(R, rid):
+    """a BOOLEAN column is `the group took part` only where its pattern matched the line at all: the Value::Bool is built on paths on
+    which the lookup of the pattern's result was Some - a line the pattern does not match gives the column's default (NULL), so it
+    cannot make the line yield a row"""
+    P = R.prog
+    eur = PR.desugared(P, R.need_fn("sqlgrep::data_model::ColumnParsing::extract_using_regex"))
+    fa = PR.facts(eur)
+    gets = [c for c in eur.calls if re.search(r"hash::map::HashMap::get$|btree::map::BTreeMap::get$", short(c.name)) and
+            "RegexResult" in " ".join(c.func.get("res_targs") or c.targs or [])]
+    bools = [(i, s_) for i, s_ in eur.stmts() if s_["k"] == "assign" and s_["rv"]["k"] == "aggr" and s_["rv"].get("variant") == "Bool"
+             and (s_["rv"].get("adt") or "").endswith("model::Value")]
+    if not gets or not bools or not fa.ok:
+        R.note("%s: pattern-result lookup / Bool construction not found in extract_using_regex (bool-under-pattern rule not instantiated)" % rid)
+        return
+    for i, s_ in bools:
+        ws = fa.worlds_at(i) or []
+        bad = [w for w in ws if not any(fa.atoms.get(k_, {}).get("kind") == "discr" and fa.atoms.get(k_, {}).get("call") in gets and v_ == "Some"
+                                        for k_, v_ in w)]
+        if bad or not ws:
+            R.violation(rid, "bool-without-pattern",
+                        "a BOOLEAN column's value is built on a path where the lookup of its pattern's result was not established to be Some: "
+                        "a line the pattern does not match at all yields `false` instead of the default, so the line produces a row and "
+                        "is no longer invisible to queries", ["%s:%d" % (eur.file, s_["line"])])
+            return
+    R.ok(rid, "bool-under-pattern", "Value::Bool(group.is_some()) only where the pattern's result exists (%d site(s))" % len(bools), eur.loc())
+
+
 def run(R):
     P = R.prog
     R.rule("C01.sites", "no narrowing / sign-changing cast, unchecked arithmetic or panic-capable construct on a value derived from captured text "
@@ -271,6 +298,7 @@ def run(R):
     else:
         R.violation("C01.parse", "bool-existence", "BOOLEAN columns do not mean `the group took part` on both arms (%d of %d)" % (okb, len(bools)),
                     [eur.loc()])
+    bool_pattern_rule(R, "C01.parse")
     # ---- purity
     impure = []
     for k in sorted(reach):
